@@ -90,6 +90,9 @@ impl All for Leaf {}
 
 pub trait Super {}
 impl Super for Leaf {}
+/// User traits that are *named like* derived ones: a bound on them must never stand in for the derived trait's bound.
+pub mod my { pub trait Clone {} pub trait Debug {} pub trait Hash {} pub trait PartialEq {} pub trait Default {} }
+impl my::Clone for Leaf {} impl my::Debug for Leaf {} impl my::Hash for Leaf {} impl my::PartialEq for Leaf {} impl my::Default for Leaf {}
 pub trait Tr { type Assoc; type Out; }
 impl Tr for Leaf { type Assoc = Leaf; type Out = Leaf; }
 impl<'x> Tr for &'x Leaf { type Assoc = Leaf; type Out = Leaf; }
